@@ -25,6 +25,7 @@ From WebP Require Spec.Container Model.Container Model.ContainerIO Proofs.Contai
 From WebP Require Lib.ZBits Lib.Res Model.BitReader Model.Huffman Proofs.Lossless_BitReader Proofs.Lossless_SymSchedule.
 From WebP Require Lib.Arr Spec.PrefixCode Model.LosslessLib Model.Lossless Proofs.Lossless_HuffmanSafe Proofs.Lossless_PixelSafe Proofs.C04_bits
   Proofs.C01_stream Proofs.C01_symbols Proofs.C01_codes Proofs.C01_pixlib Proofs.C01_pixels Proofs.C01_groups Proofs.C01_gspec Proofs.C01_final Proofs.C01_top.
+From WebP Require Model.BitReaderIO Proofs.BitReaderIO_laws Proofs.BitReaderIO_main.
 Import ListNotations.
 
 Theorem read_exact_any_schedule : forall s1 s2 r want, want <= length (remaining r) ->
@@ -197,3 +198,60 @@ Module RC.
     end.
   Proof. exact decode_frame_schedule_independent. Qed.
 End RC.
+
+(* ---------------- the lossless bit reader over a reader whose fill_buf FAILS once (Model/BitReaderIO.v, tied by the c10bits correspondence:
+   values, outcome class, number of fill_buf calls, bytes left, final state, for a fault at every call index) ---------------- *)
+Module BRIO.
+  Import Lib.ZBits Lib.Res Model.BitReader Model.BitReaderIO Proofs.Lossless_BitReader Proofs.BitReaderIO_main.
+  Local Open Scope Z_scope.
+
+  (* no fault armed: the I/O-level script machine is the one of module BR (values, outcome, observable final state) *)
+  Theorem bit_reader_io_refines_pure : forall (d s : list Z) (ops : list brop),
+    fst (run_io d s None ops) = run d s ops.
+  Proof. exact fill_io_no_fault. Qed.
+
+  (* one injected failure at fill_buf call k; snd (run_io ..) = number of fill_buf calls made *)
+  Theorem bit_reader_fault_surfaces : forall (d s : list Z) (ops : list brop) (k : Z),
+    (0 <= k < snd (run_io d s None ops) ->
+       exists (j : nat) (vj : list Z) (obsj : Z * list Z * Z) (cj : Z),
+         (j < length ops)%nat /\
+         run_io d s None (firstn j ops) = (vj, Ok obsj, cj) /\
+         cj <= k < snd (run_io d s None (firstn (S j) ops)) /\
+         run_io d s (Some k) ops = (vj, Err EIoFault, k + 1) /\
+         exists rest, fst (fst (run_io d s None ops)) = vj ++ rest)
+    /\ (k < 0 \/ snd (run_io d s None ops) <= k -> run_io d s (Some k) ops = run_io d s None ops).
+  Proof. exact BitReaderIO_main.bit_reader_fault_surfaces. Qed.
+
+  Theorem bit_reader_fault_outcome : forall (d s : list Z) (ops : list brop) (k : Z),
+    0 <= k < snd (run_io d s None ops) ->
+    exists m : nat, run_io d s (Some k) ops = (firstn m (fst (run d s ops)), Err EIoFault, k + 1).
+  Proof. exact BitReaderIO_main.bit_reader_fault_outcome. Qed.
+
+  Theorem bit_reader_fault_beyond : forall (d s : list Z) (ops : list brop) (k : Z),
+    k < 0 \/ snd (run_io d s None ops) <= k -> fst (run_io d s (Some k) ops) = run d s ops.
+  Proof. exact BitReaderIO_main.bit_reader_fault_beyond. Qed.
+
+  (* the I/O error is not one of the decoder's own verdicts *)
+  Theorem io_fault_is_not_bitstream_error : EIoFault <> EBitStreamError.
+  Proof. discriminate. Qed.
+
+  Theorem bit_reader_io_schedule_independent : forall (d s1 s2 : list Z) (ops : list brop),
+    Forall byte d -> fst (run_io d s1 None ops) = fst (run_io d s2 None ops).
+  Proof. exact run_io_schedule_independent. Qed.
+
+  (* ... but the number of fill_buf calls is not: WHICH operation a fault at index k interrupts depends on the schedule *)
+  Theorem bit_reader_call_count_depends_on_schedule :
+    ~ (forall (d s1 s2 : list Z) (ops : list brop), Forall byte d -> snd (run_io d s1 None ops) = snd (run_io d s2 None ops)).
+  Proof. exact call_count_not_schedule_independent. Qed.
+
+  (* 12 bytes in windows of 3: 16 calls; a fault at call 9 (in the explicit fill) and at call 15 (made by the read_bits that ends in
+     BitStreamError on the fault-free run: the I/O error wins); through a Cursor the same script makes 9 calls *)
+  Example bit_reader_fault_example :
+    run_io ex_data ex_sched None ex_ops = ([4; 796723; 36147215; 403704529], Err EBitStreamError, 16)
+    /\ run_io ex_data ex_sched (Some 9) ex_ops = ([4; 796723], Err EIoFault, 10)
+    /\ run_io ex_data ex_sched (Some 15) ex_ops = ([4; 796723; 36147215; 403704529], Err EIoFault, 16)
+    /\ run_io ex_data ex_sched (Some 16) ex_ops = run_io ex_data ex_sched None ex_ops
+    /\ run_io ex_data [] None ex_ops = ([4; 796723; 36147215; 403704529], Err EBitStreamError, 9)
+    /\ run_io ex_data [] (Some 1) ex_ops = ([4; 796723], Err EIoFault, 2).
+  Proof. repeat split; vm_compute; reflexivity. Qed.
+End BRIO.
